@@ -31,6 +31,7 @@ import PyomaVerif.Ops.C02State
 import PyomaVerif.Ops.BuildHank
 import PyomaVerif.Ops.C07Rect
 import PyomaVerif.Ops.MultiSetup
+import PyomaVerif.Ops.C15X
 /-! Line-protocol driver: one JSON object per line in, one JSON value per line out. -/
 open Lean PV PV.Codec
 
@@ -49,6 +50,7 @@ def allOps : List (String × (Json → Except String Json)) :=
   ++ PV.Ops.C07Rect.ops
   ++ PV.Ops.C13M.ops
   ++ PV.Ops.MultiSetup.ops
+  ++ PV.Ops.C15X.ops
 
 def handle (line : String) : String :=
   match Json.parse line with
